@@ -8,7 +8,8 @@ Abstract input of a 'model' case (small JSON):
    'extra': unmapped channels in the raw file, 'cmrot': rotation of the channel map, 'offset': header bytes,
    'tdtype': dtype of spike_times.npy, 'raw': bool (is the raw file given to the model),
    'store': None | {'ids': [...], 'table': [[...]], 'factor': key, 'via': 'export'|'save'},
-   'q_ids': [...], 'q_ch': None | [...], 'qkind': 'list'|'i64'|'i32'}
+   'q_ids': [...], 'q_ch': None | [...], 'qkind': 'list'|'i64'|'i32',
+   optional (stage 5): 'names': relative names of the raw files in the order given, 'pkind': 'path'|'str'}
 """
 import os
 
@@ -42,13 +43,16 @@ def write_dataset(np, d, inp):
     nr, nc, n = sum(inp['sizes']), inp['nc'], inp['n']
     raw, cm = raw_matrix(np, nr, nc, inp.get('extra', 0), inp.get('cmrot', 0), inp['dtype'])
     paths, acc = [], 0
+    names = inp.get('names')          # stage 5: names of the raw files in the order they are GIVEN (None: raw0.dat, raw1.dat, ...)
     for j, s in enumerate(inp['sizes']):
-        p = os.path.join(d, 'raw%d.dat' % j)
+        p = os.path.join(d, *(names[j].split('/') if names else ['raw%d.dat' % j]))
+        if os.path.dirname(p) != d:
+            os.makedirs(os.path.dirname(p), exist_ok=True)
         with open(p, 'wb') as f:
             f.write(b'\x05' * inp.get('offset', 0))
             f.write(raw[acc:acc + s].tobytes())
         acc += s
-        paths.append(Path(p))
+        paths.append(p if inp.get('pkind') == 'str' else Path(p))
     ns = len(inp['samples'])
     nt = 2
     np.save(os.path.join(d, 'spike_times.npy'), np.array(inp['samples'], dtype=inp.get('tdtype', 'uint64')))
